@@ -169,7 +169,10 @@ def np_clip(x, a_min=None, a_max=None):
 def np_abs(x):
     if not isinstance(x, V):
         return abs(x)
-    return abs(x)
+    r = abs(x)
+    if r.inf is not None:
+        r.meta = "posinf"  # |+-inf| = +inf
+    return r
 
 
 def np_isclose(a, b, rtol=1e-05, atol=1e-08):
@@ -610,6 +613,10 @@ def _axis_len(a):
 
 
 def v_getitem(interp, v, key):
+    if isinstance(key, int) or (isinstance(key, V) and not key.is_bool and z3.is_int(key.t) and key.axes):
+        from . import theory_seq
+
+        return theory_seq.v_index(interp, v, key)
     if isinstance(key, V):
         if key.is_bool:
             # boolean mask selection along the leading axis
@@ -874,6 +881,8 @@ def numpy_table(interp):
         "isclose": np_isclose,
         "nan_to_num": np_nan_to_num,
         "isnan": np_isnan,
+        "isfinite": lambda x: ~V(_or(lift(x).nan, lift(x).inf) if _or(lift(x).nan, lift(x).inf) is not None else z3.BoolVal(False), lift(x).axes, lift(x).series),
+        "isinf": lambda x: V(lift(x).inf if lift(x).inf is not None else z3.BoolVal(False), lift(x).axes, lift(x).series),
         "full": np_full,
         "asarray": np_asarray,
         "array": np_asarray,
